@@ -18,10 +18,12 @@ func main() {
 	out := flag.String("out", "/verif/out/dev", "output dir")
 	dump := flag.Bool("dump", false, "keep smt files")
 	list := flag.String("list", "", "list function keys containing substring")
+	shadowed := flag.Bool("shadowed", false, "print contracts that are shadowed by another contract of the same function (duplicates across files)")
 	lemma := flag.String("lemma", "", "lemma name to check")
 	timeout := flag.Int("t", 10, "solver timeout (s)")
 	ssaDump := flag.String("ssa", "", "print SSA of function key(s)")
 	propFlag := flag.String("prop", "", "verify every function and lemma tagged with this property")
+	only := flag.String("only", "", "development aid (never used by `check`): solve only the obligations whose name contains this substring; the others are reported as skipped")
 	replayFlag := flag.Bool("replay", false, "with -func: replay every obligation that failed with a model on the real code")
 	replayOb := flag.String("replayob", "", "with -func: do not solve; replay the obligation with this name (or name suffix, e.g. '#safe:index[1]') directly")
 	flag.Parse()
@@ -29,6 +31,12 @@ func main() {
 	if err != nil {
 		fmt.Fprintln(os.Stderr, "error:", err)
 		os.Exit(2)
+	}
+	if *shadowed {
+		for _, sh := range eng.contracts.Shadowed {
+			fmt.Println(sh)
+		}
+		return
 	}
 	if *list != "" {
 		var ks []string
@@ -103,6 +111,20 @@ func main() {
 		if err != nil {
 			fmt.Println(err)
 			os.Exit(2)
+		}
+		if *only != "" {
+			n := 0
+			for _, ob := range fc.obls {
+				if !strings.Contains(ob.Name, *only) {
+					v := "unsat"
+					if ob.Cover {
+						v = "sat"
+					}
+					ob.Result = &SolveResult{Verdict: v, Solver: "skipped"}
+					n++
+				}
+			}
+			fmt.Printf("-only %q: %d obligations skipped (NOT verified)\n", *only, n)
 		}
 		if *replayOb != "" {
 			devReplayOne(eng, fc, *replayOb, *repo, *out) // replay_dev.go
